@@ -16,9 +16,66 @@ class Runaway(Exception):
     pass
 
 
+CPU_LIMIT = 1.5     # seconds of process CPU time per sampler construction + epoch(s) (a real one takes milliseconds;
+                    # imports are done before the clock starts)
+WALL_LIMIT = 90.0   # fallback for a hang that does not burn CPU; generous, the machine may be heavily loaded
+
+
+class Alarm:
+    """runaway guard for one sampler run.  A loop that makes no draw at all (ClassBalancedSampler with shuffle=False
+    on an empty pool) is not seen by the draw counter of Recorder.  The guard counts the process's own CPU time
+    (ITIMER_VIRTUAL / SIGVTALRM: a Python busy loop burns user CPU, a run that is merely descheduled on a loaded
+    machine does not) and has a generous wall-clock fallback (ITIMER_REAL / SIGALRM) for a hang that sleeps.
+    Both raise Runaway inside the running Python code."""
+
+    def __init__(self, cpu=None, wall=None):
+        self.cpu = CPU_LIMIT if cpu is None else cpu
+        self.wall = WALL_LIMIT if wall is None else wall
+
+    def __enter__(self):
+        import signal
+
+        def fire(*a):
+            raise Runaway()
+        self.old_v = signal.signal(signal.SIGVTALRM, fire)
+        self.old_r = signal.signal(signal.SIGALRM, fire)
+        signal.setitimer(signal.ITIMER_VIRTUAL, self.cpu)
+        signal.setitimer(signal.ITIMER_REAL, self.wall)
+        return self
+
+    def __exit__(self, *exc):
+        import signal
+        signal.setitimer(signal.ITIMER_VIRTUAL, 0)
+        signal.setitimer(signal.ITIMER_REAL, 0)
+        signal.signal(signal.SIGVTALRM, self.old_v)
+        signal.signal(signal.SIGALRM, self.old_r)
+        return False
+
+
+RUNAWAY_RANK = {"result": "RUNAWAY", "stream": [], "len": None, "seeds": [], "draws": [], "alien": False,
+                "random_": [], "kinds": [], "seed_events": [], "draw_gens": []}
+
+
+def guarded(fn, *a, **k):
+    """fn(*a, **k) under the runaway guard; -> (value, ran_away)"""
+    import torch  # noqa: F401  (first imports cost CPU seconds: not on the guard's clock)
+    import kappadata.samplers  # noqa: F401
+    try:
+        with Alarm():
+            return fn(*a, **k), False
+    except Runaway:   # fired outside fn's own try blocks
+        return None, True
+
+
+def run_rank_guarded(case, rank, world, **kw):
+    out, ran_away = guarded(run_rank, case, rank, world, **kw)
+    return dict(RUNAWAY_RANK) if ran_away else out
+
+
 class Recorder:
     def __init__(self):
         self.log = []
+        self.base = 0      # log index where the current list(sampler) call started (the draw cap is per call)
         self.gens = {}     # id(generator) -> small id
 
     def gid(self, g):
@@ -50,7 +107,7 @@ class Recorder:
         o_randperm, o_randint, o_multinomial = torch.randperm, torch.randint, torch.multinomial
 
         def count():
-            if sum(1 for ev in rec.log if ev[0] != "seed") > MAX_DRAWS:
+            if sum(1 for ev in rec.log[rec.base:] if ev[0] != "seed") > MAX_DRAWS:
                 raise Runaway()
 
         def randperm(n, *a, generator=None, **k):
@@ -111,6 +168,9 @@ class ClassDataset:
     def getall_class(self):
         return list(self.classes)
 
+    def __getitem__(self, idx):
+        return int(idx)
+
 
 def build(case, rank, world, seed=None, generator=None):
     """construct the real sampler of the case for one rank"""
@@ -140,6 +200,91 @@ def build(case, rank, world, seed=None, generator=None):
     raise ValueError(kind)
 
 
+def digest_log(out, log):
+    """fill seeds / draws / ... of one record from the spy events of its call"""
+    draw_gens = set()
+    for ev in log:
+        if ev[0] == "seed":
+            out["seeds"].append(ev[2])
+        elif ev[0] == "random_":
+            out["random_"].append([ev[1], ev[2]])
+        else:
+            out["draws"].append([ev[2], ev[3]])
+            draw_gens.add(ev[1])
+            if ev[1] is None:
+                out["alien"] = True
+            if ev[0] == "multinomial" and ev[4]:
+                out["alien"] = True
+    if out["result"] == "RUNAWAY":       # keep replay files readable
+        out["draws"] = out["draws"][:3]
+    out["seed_events"] = [[ev[1], ev[2]] for ev in log if ev[0] == "seed"]
+    out["draw_gens"] = sorted(draw_gens, key=str)
+    out["kinds"] = [ev[0] for ev in log if ev[0] not in ("seed", "random_")][:len(out["draws"])]
+    return out
+
+
+def run_ops(case, rank, world, ops):
+    """ONE sampler object of the given rank driven through ops = [["set", e] | ["iter"], ...].
+    -> list parallel to ops: None for a set_epoch call, a record like run_rank's for every list(sampler) call
+    (the spy events of the construction are attributed to the first list(sampler) call).
+    Once a call fails the later list(sampler) calls are reported with the same failure and not executed."""
+    import torch
+    out = []
+    gen = None
+    if case["kind"] == "rand":
+        gen = torch.Generator().manual_seed(case["seed"])
+    rec = Recorder()
+    failed = None
+    with rec:
+        s = None
+        try:
+            s = build(case, rank, world, generator=gen)
+        except AssertionError:
+            failed = "AssertionError"
+        except Runaway:
+            failed = "RUNAWAY"
+        except Exception as e:  # noqa
+            failed = type(e).__name__ + ": " + str(e)[:200]
+        for op in ops:
+            if op[0] == "set":
+                out.append(None)
+                if failed is None:
+                    try:
+                        s.set_epoch(op[1])
+                    except Exception as e:  # noqa
+                        failed = type(e).__name__ + ": " + str(e)[:200]
+                continue
+            r = {"result": "ok", "stream": [], "len": None, "seeds": [], "draws": [], "alien": False, "random_": []}
+            if failed is None:
+                try:
+                    r["len"] = int(len(s))
+                    stream = []
+                    for i in s:
+                        stream.append(int(i))
+                        if len(stream) > 100000:
+                            raise Runaway()
+                    r["stream"] = stream
+                except AssertionError:
+                    failed = "AssertionError"
+                except Runaway:
+                    failed = "RUNAWAY"
+                except Exception as e:  # noqa
+                    failed = type(e).__name__ + ": " + str(e)[:200]
+            if failed is not None:
+                r["result"] = failed
+            digest_log(r, rec.log[rec.base:])
+            rec.base = len(rec.log)
+            out.append(r)
+    return out
+
+
+def run_ops_guarded(case, rank, world, ops):
+    out, ran_away = guarded(run_ops, case, rank, world, ops)
+    if ran_away:
+        return [None if op[0] == "set" else dict(RUNAWAY_RANK) for op in ops]
+    return out
+
+
 def run_rank(case, rank, world, epoch=None, seed=None):
     """-> dict(result, stream, len, seeds, draws=[[request, result]], gens, alien, random_)"""
     import torch
@@ -167,24 +312,7 @@ def run_rank(case, rank, world, epoch=None, seed=None):
             out["result"] = "RUNAWAY"
         except Exception as e:  # noqa
             out["result"] = type(e).__name__ + ": " + str(e)[:200]
-    # generator that made the draws: the last one seeded (semi: the third)
-    draw_gens = set()
-    for ev in rec.log:
-        if ev[0] == "seed":
-            out["seeds"].append(ev[2])
-        elif ev[0] == "random_":
-            out["random_"].append([ev[1], ev[2]])
-        else:
-            out["draws"].append([ev[2], ev[3]])
-            draw_gens.add(ev[1])
-            if ev[1] is None:
-                out["alien"] = True
-            if ev[0] == "multinomial" and ev[4]:
-                out["alien"] = True
-    out["seed_events"] = [[ev[1], ev[2]] for ev in rec.log if ev[0] == "seed"]
-    out["draw_gens"] = sorted(draw_gens, key=str)
-    out["kinds"] = [ev[0] for ev in rec.log if ev[0] not in ("seed", "random_")]
-    return out
+    return digest_log(out, rec.log)
 
 
 def interleave(streams):
@@ -236,3 +364,14 @@ def coq_cb(case):
     return Rec(cb_classes=[int(c) for c in case["classes"]], cb_dim=Nat(case["dim"]),
                cb_spc_arg=Opt(None if case["spc"] is None else Nat(case["spc"])), cb_shuffle=case["shuffle"],
                cb_seed=case["seed"], cb_epoch=case["epoch"] or 0, cb_W=Nat(case["W"]))
+
+
+def coq_hist(rank, ops, recs):
+    """(rank, [HSet e | HIter rank_rec]) for C12.Check.hist_t"""
+    hs = []
+    for op, r in zip(ops, recs):
+        if op[0] == "set":
+            hs.append(C("HSet", int(op[1])))
+        else:
+            hs.append(C("HIter", Raw(coq(coq_rank(r)))))
+    return (Nat(rank), Raw("[" + "; ".join(str(h) for h in hs) + "]"))
